@@ -71,7 +71,13 @@ def gen_case(rng, tier, index):
                                                   "arm64-elf"]),
                 "base": rng.randrange(0x100, 0x7000),
                 "nconst": rng.randrange(0, 3),
-                "seed": rng.randrange(1 << 30)}
+                "seed": rng.randrange(1 << 30),
+                # two different patch objects instead: one that relies on
+                # the reported stack adjustment (align_stack off, with or
+                # without the flags saved) and a default one, either first
+                "pair": random.Random(f"pair:{index}").choice(
+                    [None, None, "noalign-first", "noalign-last",
+                     "noalign-noflags-first", "noalign-noflags-last"])}
     abi = rng.choice(ABIS)
     bits = 32 if abi == "ia32-pe" else 64
     nargs = rng.choice([0, 1, 2, 3, 4, 6, 7, 9, 11, 16])
@@ -172,11 +178,22 @@ def run_ctx(c):
         seen.append((ctx.block, ctx.offset))
         return c["base"] + ctx.offset
     consts = [7 + k for k in range(c["nconst"])]
-    patch = CallPatch(bu.symbols["g"], consts + [arg])
+    patch = patch2 = CallPatch(bu.symbols["g"], consts + [arg])
+    pair = c.get("pair")
+    if pair:
+        kw = {"align_stack": False}
+        if "noflags" in pair:
+            kw["clobbers_flags"] = False
+        other = CallPatch(bu.symbols["g"], consts + [arg], **kw)
+        if pair.endswith("first"):
+            patch = other
+        else:
+            patch2 = other
+        ctr["context_pairs_of_different_patches"] = 1
     functions = gtirb_functions.Function.build_functions(m)
     ctx = RewritingContext(m, functions)
     ctx.insert_at(bu.blocks[0], 0, patch)
-    ctx.insert_at(bu.blocks[0], nopsz, patch)
+    ctx.insert_at(bu.blocks[0], nopsz, patch2)
     ctx.apply()
     if seen != [(bu.blocks[0], 0), (bu.blocks[0], nopsz)]:
         viol.append({"key": "context:callable-context-differs",
@@ -233,7 +250,8 @@ def run_ctx(c):
                         viol.append({"key": "context:constant-argument-"
                                             "differs", "msg": f"arg {j}"})
                 if ev["sp"] % 16:
-                    viol.append({"key": "context:sp-misaligned-at-call",
+                    viol.append({"key": "context:sp-misaligned-at-call" + (
+                        f":pair:{pair}:site{k + 1}" if pair else ""),
                                  "msg": hex(ev["sp"])})
                 # the callee: clobbers what it may
                 for n in c16.CALLER[abi_name]:
@@ -255,11 +273,11 @@ def run_ctx(c):
         if mc.regs[n] != init[n]:
             viol.append({"key": "context:register-not-restored", "msg": n})
             break
-    if mc.flags != f_0:
+    if mc.flags != f_0 and not (pair and "noflags" in pair):
         viol.append({"key": "context:flags-not-restored", "msg": ""})
     for key, msg in mc.problems:
         viol.append({"key": "context:stack:" + key, "msg": msg})
-    return {"sig": f"ctx:{abi_name}:{c['nconst']}", "violations": viol,
+    return {"sig": f"ctx:{abi_name}:{c['nconst']}:{pair}", "violations": viol,
             "counters": ctr}
 
 
